@@ -257,9 +257,14 @@ func (in *vInst) addConn(i int) *vConn {
 		src = &scriptedSource{script: in.cfg.RngScript}
 	}
 	p := &PFCPConn{
-		ctx: in.ctx, Conn: sock, ts: recoveryTS{local: time.Unix(1700000000+int64(i), 0)}, rng: rand.New(src), maxRetries: 100,
+		ctx: in.ctx, Conn: sock, ts: recoveryTS{local: time.Unix(1700000000+int64(i), 0)}, maxRetries: 100,
 		store: NewInMemoryStore(), upf: in.u, done: done, shutdown: make(chan struct{}), InstrumentPFCP: in.met,
 		hbReset: make(chan struct{}, 100),
+	}
+	// the association's random source is injected by name: a tree that draws its F-SEIDs differently still builds, and only
+	// the scenarios that script the source cannot run on it
+	if !vSetField(p, "rng", rand.New(src)) && in.cfg.RngScript != nil {
+		panic("VERIF-INFRA: PFCPConn has no field rng of type *rand.Rand any more: the scripted random source cannot be injected")
 	}
 	p.setLocalNodeID(in.u.nodeID)
 	c := &vConn{pc: p, sock: sock, done: done, seq: 1, addr: addr, node: fmt.Sprintf("10.0.1.%d", i+1)}
